@@ -73,6 +73,32 @@ theorem owns_perm {h : H} {l1 l2 : List Nat} (ho : Owns h l1) (hp : ∀ x, x ∈
 
 /-! ### clone -/
 
+theorem cloneFrom_facts (orc : Orc) (h : H) (g : JsonObj) (p : Parent) (owned : List Nat) (ho : Owns h owned)
+    (hinv : g.PutInv) (hf : h.fault = false) :
+    ∃ b, Sep (cfgCheck (cloneFrom Code.real orc h g p) p) b ∧
+      (cfgCheck (cloneFrom Code.real orc h g p) p).o.spaced = p.spaced ∧
+      (cfgCheck (cloneFrom Code.real orc h g p) p).o.openNs = p.openNs ∧
+      (cfgCheck (cloneFrom Code.real orc h g p) p).h.mem b = [] ∧
+      (cfgCheck (cloneFrom Code.real orc h g p) p).o.reflectBuf = none ∧
+      Owns (cfgCheck (cloneFrom Code.real orc h g p) p).h (b :: owned) ∧
+      (∀ i ∈ owned, (cfgCheck (cloneFrom Code.real orc h g p) p).h.mem i = h.mem i) ∧
+      SameRest h (cfgCheck (cloneFrom Code.real orc h g p) p).h := by
+  obtain ⟨o2, fr, em, rest, fl⟩ := owns_bufGet orc h owned ho
+  have hc : cloneFrom Code.real orc h g p = ⟨(bufGet orc h).2,
+      { g with cfg := some p.cfg, spaced := p.spaced, openNs := p.openNs, buf := some (bufGet orc h).1 }⟩ := by
+    simp [cloneFrom, Code.real]
+  have hcc : cfgCheck (cloneFrom Code.real orc h g p) p = cloneFrom Code.real orc h g p := by
+    rw [hc]; simp [cfgCheck]
+  rw [hcc, hc]
+  generalize (bufGet orc h).1 = b at *
+  generalize (bufGet orc h).2 = h2 at *
+  have ok2 := o2.poolOK
+  obtain ⟨n1, n2⟩ := o2
+  refine ⟨b, ⟨rfl, n2 b (by simp), ?_, ?_, ok2, fl.trans hf⟩, rfl, rfl, em, hinv.2, ⟨n1, n2⟩, fr, rest⟩
+  · simp only [List.nodup_append, List.nodup_cons, List.mem_cons] at n1
+    intro hb; exact n1.2.2 b hb b (Or.inl rfl) rfl
+  · intro rb hrb; simp [hinv.2] at hrb
+
 theorem clone_facts (orc : Orc) (h : H) (p : Parent) (owned : List Nat) (ho : Owns h owned)
     (hj : ∀ o ∈ h.jsonPool, o.PutInv) (hf : h.fault = false) :
     ∃ b, Sep (cfgCheck (clone Code.real orc h p) p) b ∧
@@ -86,29 +112,17 @@ theorem clone_facts (orc : Orc) (h : H) (p : Parent) (owned : List Nat) (ho : Ow
       SameObj h (cfgCheck (clone Code.real orc h p) p).h := by
   have hg := takeAt_fst JsonObj.fresh h.jsonPool (orc h.tick)
   have hg2 := takeAt_snd JsonObj.fresh h.jsonPool (orc h.tick)
-  generalize hge : takeAt JsonObj.fresh h.jsonPool (orc h.tick) = g at hg hg2
+  unfold clone
+  simp only []
+  generalize takeAt JsonObj.fresh h.jsonPool (orc h.tick) = g at hg hg2
   have hinv : g.1.PutInv := by
     rcases hg with e | e
     · rw [e]; exact ⟨rfl, rfl⟩
     · exact hj _ e
-  let h1 : H := { h with jsonPool := g.2, tick := h.tick + 1 }
-  have ho1 : Owns h1 owned := ho
-  obtain ⟨o2, fr, em, rest, fl⟩ := owns_bufGet orc h1 owned ho1
-  have hc : clone Code.real orc h p = ⟨(bufGet orc h1).2,
-      { g.1 with cfg := some p.cfg, spaced := p.spaced, openNs := p.openNs, buf := some (bufGet orc h1).1 }⟩ := by
-    simp [clone, hge, Code.real, h1]
-  have hcc : cfgCheck (clone Code.real orc h p) p = clone Code.real orc h p := by
-    rw [hc]; simp [cfgCheck]
-  rw [hcc, hc]
-  generalize (bufGet orc h1).1 = b at *
-  generalize (bufGet orc h1).2 = h2 at *
-  have ok2 := o2.poolOK
-  obtain ⟨n1, n2⟩ := o2
-  refine ⟨b, ⟨rfl, n2 b (by simp), ?_, ?_, ok2, fl.trans hf⟩, rfl, rfl, em, hinv.2, ⟨n1, n2⟩, fr, ?_, rest.obj⟩
-  · simp only [List.nodup_append, List.nodup_cons, List.mem_cons] at n1
-    intro hb; exact n1.2.2 b hb b (Or.inl rfl) rfl
-  · intro rb hrb; simp [hinv.2] at hrb
-  · intro o ho'; rw [rest.1] at ho'; exact hg2 o ho'
+  obtain ⟨b, a1, a2, a3, a4, a5, a6, a7, a8⟩ :=
+    cloneFrom_facts orc { h with jsonPool := g.2, tick := h.tick + 1 } g.1 p owned ho hinv hf
+  refine ⟨b, a1, a2, a3, a4, a5, a6, a7, ?_, a8.obj⟩
+  intro o ho'; rw [a8.1] at ho'; exact hg2 o ho'
 
 /-- after any encoder run from a freshly cloned object the owned buffers are untouched, and the buffers the object
     holds (`b`, possibly a reflection buffer) are owned too -/
